@@ -1,7 +1,7 @@
 """C06 — no peer behaviour makes h3 panic or leaves a call pending forever (C06_Trace)."""
 import json, random
 import vlib
-from props import common
+from props import common, corpus
 
 
 def sig(s, trace, why):
@@ -133,6 +133,9 @@ def run(tier, chk):
     common.run_sim(chk, wd, scns, "C06_Trace", shards=14, sig_of=sig)
     rnd = random_scenarios(vlib.seed(), 3000 if tier == "quick" else 60000)
     common.run_sim(chk, wd, rnd, "C06_Trace", label="rnd", shards=14, sig_of=sig)
+    if tier != "quick":
+        # the scenario families of the other checks: none of them may make h3 panic or leave a call pending for ever either
+        corpus.cross(chk, "C06", "C06_Trace", sig_of=lambda s, t, w: f"c06:corpus:{s.get('family')}:" + sig(s, t, w), exclude=("C06",))
     chk.exhaustive = False
     chk.distinct_nontrivial = len(scns) + len(rnd)
     chk.notes["exhaustive_part"] = f"{len(scns)} fault-injection scenarios (5 base scripts x every step index x every fault x 2 configurations) are enumerated completely by TLC"
